@@ -363,8 +363,49 @@ _EXTRA_TIES = {
     "C17": ["Tie/EmuAgree.v"],
     "C19": _CLIENT + ["Tie/LayoutsAgree.v"],
 }
+_MORE = {
+    "C19": ["Tie/TimeAgree.v", "Tie/GettersOk.v"],
+    "C15": ["Tie/StructAgree.v"],
+    "C14": ["Tie/StructAgree.v"],
+    "C03": ["Tie/GettersOk.v"],
+    "C04": ["Tie/EmuDisciplined.v"], "C06": ["Tie/EmuDisciplined.v"], "C11": ["Tie/EmuDisciplined.v"],
+    "C16": ["Tie/EmuDisciplined.v"], "C18": ["Tie/EmuDisciplined.v"],
+}
+for _pid, _ties in _MORE.items():
+    _EXTRA_TIES.setdefault(_pid, [])
+    _EXTRA_TIES[_pid] = _EXTRA_TIES[_pid] + _ties
 for _pid, _ties in _EXTRA_TIES.items():
     _cur = PROPS[_pid].setdefault("tie_files", [])
     for _t in _ties:
         if _t not in _cur:
             _cur.append(_t)
+
+# ---- kinds shared across properties (the generators of one property are reused where another property's inputs go through
+# the same code: frames built by the library's constructor, the split function, the mixture detector) ----
+_NEWMSG = {"type": "case_newmsg", "chk": "chk_newmsg", "sig": "sig_newmsg", "scope": "N_scope"}
+_SPLIT = {"type": "case_split", "chk": "chk_split", "sig": "sig_split", "scope": "N_scope"}
+_MIX = {"type": "case_mix", "chk": "chk_mix", "sig": "sig_mix", "scope": "Z_scope"}
+
+
+def _add_kind(pid, name, kind, module, imports=()):
+    P = PROPS[pid]
+    P["kinds"][name] = kind
+    mods = P.get("eval_modules")
+    if mods is None:
+        mods = [P.pop("eval_module")]
+        P["eval_modules"] = mods
+    if module not in mods:
+        mods.append(module)
+    imps = P.setdefault("imports", [])
+    for i in imports:
+        if i not in imps:
+            imps.append(i)
+
+
+for _pid in ("C07", "C10", "C13", "C19"):
+    _add_kind(_pid, "newmsg", _NEWMSG, "Run.EvalFrame")
+_add_kind("C06", "split", _SPLIT, "Run.EvalStream", ["XS.Lib.Bufio"])
+for _pid in ("C11", "C13"):
+    _add_kind(_pid, "mix", _MIX, "Run.EvalConc")
+_add_kind("C03", "codec", {"type": "case_codec", "chk": "chk_codec", "sig": "sig_codec", "scope": "N_scope"}, "Run.EvalCodec", ["XS.Run.EvalConfig"])
+
